@@ -42,6 +42,7 @@ def _run_variant(args):
         ctx = Context(prop, "quick", prog, Resolver(prog))
         try:
             mod.run(ctx)
+            ctx.check_floors(bool(ctx.findings))
         except AnchorError as ex:
             return "anchor", str(ex)
         return {(fd.rule, fd.function, fd.construct) for fd in ctx.findings}, ""
